@@ -43,33 +43,11 @@ Fixpoint ending (l : list stmt) : option stmt :=
 Lemma completes_ending l : completes l = is_none (ending l).
 Proof. induction l as [|x r IH]; cbn; [reflexivity|]. destruct (is_pass x); cbn; [exact IH | reflexivity]. Qed.
 
-Definition stmt_items (i ph : N) (d : Z) (kx : N * stmt) : list item :=
-  IEv (mkEv i ph (fst kx) d) :: match snd kx with
-                                 | SFailX f l | SFailC f l => [IFail (mkF i f l 0)]
-                                 | SCheckK k a f l => if passes k a then [] else [IFail (mkF i f l 0)]
-                                 | _ => []
-                                 end.
-Definition phase_items (i ph : N) (d : Z) (k : N) (l : list stmt) : list item := flat_map (stmt_items i ph d) (number k (executed l)).
-Definition is_checkfail (x : stmt) : bool :=
-  match x with SFailX _ _ | SFailC _ _ => true | SCheckK k a _ _ => negb (passes k a) | _ => false end.
-Definition phase_cnt (l : list stmt) : cnt := mkCnt 0 0 (nb counts_check (executed l)) (nb is_checkfail (executed l)) 0 0.
-
-(* how a phase leaves: decided by the first statement that does not pass *)
-Definition leave (exc : bool) (e : option stmt) (s : st) : st * outcome :=
-  match e with
-  | Some (SFailX _ _) => if exc then (s, OThrow XFailed) else (upd s (depth s - 1) (overflow s) (cur s) czero [], OJump (depth s - 1))
-  | Some (SFailC _ _) => (upd s (depth s - 1) (overflow s) (cur s) czero [], OJump (depth s - 1))
-  | Some (SCheckK k a _ _) =>
-      if passes k a then (s, ONormal)
-      else if c_style k || negb exc then (upd s (depth s - 1) (overflow s) (cur s) czero [], OJump (depth s - 1))
-      else (s, OThrow XFailed)
-  | Some SThrowStd => (s, OThrow XStd)
-  | Some SThrowOther => (s, OThrow XOther)
-  | _ => (s, ONormal)
-  end.
-
 Lemma nb_cons {A} (f : A -> bool) x l : nb f (x :: l) = ((if f x then 1 else 0) + nb f l)%N.
 Proof. unfold nb; cbn. destruct (f x); cbn [length]; lia. Qed.
+Lemma sumN_cons {A} (f : A -> N) x l : sumN f (x :: l) = (f x + sumN f l)%N. Proof. reflexivity. Qed.
+Lemma sumN_app {A} (f : A -> N) a b : sumN f (a ++ b) = (sumN f a + sumN f b)%N.
+Proof. induction a as [|x a IH]; cbn [app sumN fold_right]; [reflexivity|]. fold (sumN f (a ++ b)). fold (sumN f a). rewrite IH. lia. Qed.
 
 Ltac norm := repeat progress (rewrite ?emit_upd, ?count_upd, ?add_failure_upd, ?set_depth_upd, ?set_cur_upd, ?mark_slot_upd,
                                        ?depth_upd, ?overflow_upd, ?cur_upd, ?upd_upd).
@@ -77,37 +55,155 @@ Ltac norm := repeat progress (rewrite ?emit_upd, ?count_upd, ?add_failure_upd, ?
 Ltac dk := repeat match goal with
                   | |- context [if passes ?k ?a then _ else _] => destruct (passes k a) eqn:?
                   | |- context [if c_style ?k || _ then _ else _] => destruct (c_style k) eqn:?; cbn [orb negb]
+                  | |- context [if c_style ?k then _ else _] => destruct (c_style k) eqn:?
                   end.
 Ltac cnt_eq := unfold cadd, czero, one_check, one_fail, one_run, one_test, one_filt, one_ign;
                cbn [k_tests k_run k_checks k_fail k_filt k_ign]; f_equal; lia.
+(* two normal forms [upd s d o c k its] that differ in how the counter increment is written *)
+Ltac upd_eq := match goal with |- upd ?s ?d ?o ?c ?k1 ?i1 = upd ?s ?d ?o ?c ?k2 ?i2 =>
+                 replace k1 with k2 by cnt_eq; reflexivity end.
+
+Ltac fin := first [reflexivity | f_equal; first [reflexivity | upd_eq]].
+
+(* how a statement list is left, on the machine: completes / longjmp to the innermost setjmp / C++ exception.  A failing
+   C++-style check throws in a build with exceptions and jumps in a build without. *)
+Definition jump_st (s : st) : st * outcome := (upd s (depth s - 1) (overflow s) (cur s) czero [], OJump (depth s - 1)).
+Definition leave_how (exc : bool) (w : how) (s : st) : st * outcome :=
+  match w with
+  | HowDone => (s, ONormal)
+  | HowJump => jump_st s
+  | HowThrow XFailed => if exc then (s, OThrow XFailed) else jump_st s
+  | HowThrow e => (s, OThrow e)
+  end.
+Lemma long_jmp_st s : long_jmp s = jump_st s.
+Proof. unfold long_jmp, jump_st. rewrite set_depth_upd. reflexivity. Qed.
+
+(* ---- inside a try block *)
+Definition b_nfail (b : base) : N :=
+  match b with BFailX _ _ | BFailC _ _ => 1%N | BCheckK k a _ _ => if passes k a then 0%N else 1%N | _ => 0%N end.
+Definition base_items (i ph k : N) (jb : N * base) : list item :=
+  ISub (mkSub i ph k (fst jb)) :: map IFail (b_failure i (snd jb)).
+Definition bases_items (i ph k j : N) (l : list base) : list item := flat_map (base_items i ph k) (number j (b_executed l)).
+Definition bases_cnt (l : list base) : cnt := mkCnt 0 0 (sumN b_counts (b_executed l)) (sumN b_nfail (b_executed l)) 0 0.
+
+Lemma b_how_pass b : b_pass b = how_done (b_how b).
+Proof. destruct b; cbn; try reflexivity. destruct (passes k agree); [reflexivity|]. destruct (c_style k); reflexivity. Qed.
+
+Lemma exec_base_closed exc i ph k j b s :
+  exec_base exc i ph k j b s =
+  leave_how exc (b_how b) (upd s (depth s) (overflow s) (cur s) (mkCnt 0 0 (b_counts b) (b_nfail b) 0 0) (base_items i ph k (j, b))).
+Proof.
+  unfold exec_base, base_items. cbn [fst snd].
+  destruct b as [| | f l | f l | | | kd a f l]; cbn [b_how b_counts b_nfail b_failure map leave_how]; rewrite ?long_jmp_st; norm.
+  - fin.
+  - fin.
+  - destruct exc; unfold jump_st; norm; cbn [app]; rewrite ?cadd_zero_r; fin.
+  - unfold jump_st; norm; cbn [app]; rewrite ?cadd_zero_r; fin.
+  - fin.
+  - fin.
+  - assert (P : passes kd a = negb (called kd a) || fn_passes kd a) by reflexivity.
+    assert (Cn : counted kd a = if called kd a then 1%N else 0%N) by reflexivity.
+    rewrite P, Cn. destruct (called kd a), (fn_passes kd a); cbn [negb orb map leave_how]; rewrite ?long_jmp_st; norm; try fin.
+    destruct (c_style kd); [|destruct exc]; cbn [leave_how]; unfold jump_st; norm; cbn [app]; rewrite ?cadd_zero_r; fin.
+Qed.
+
+Lemma exec_bases_closed exc i ph k : forall l j s,
+  exec_bases exc i ph k j l s =
+  leave_how exc (bases_how l) (upd s (depth s) (overflow s) (cur s) (bases_cnt l) (bases_items i ph k j l)).
+Proof.
+  induction l as [|b r IH]; intros j s.
+  - cbn. unfold bases_cnt, bases_items; cbn. change (mkCnt 0 0 0 0 0 0) with czero. rewrite upd_id. reflexivity.
+  - cbn [exec_bases]. rewrite exec_base_closed. unfold bases_how, bases_cnt, bases_items in *. cbn [b_ending b_executed].
+    rewrite (b_how_pass b). destruct (b_how b) as [| |e] eqn:H; cbn [how_done leave_how]; rewrite ?H.
+    + rewrite IH. norm. cbn [number flat_map]. rewrite !sumN_cons. destruct (b_ending r) as [y|]; [destruct (b_how y) as [| |[]]; try destruct exc|];
+        cbn [leave_how]; unfold jump_st; norm; rewrite ?cadd_zero_r, ?app_nil_r; fin.
+    + unfold jump_st. cbn [number flat_map leave_how]. rewrite !sumN_cons, app_nil_r. unfold jump_st. norm. rewrite ?cadd_zero_r, ?app_nil_r. cbn [sumN fold_right]. fin.
+    + cbn [number flat_map]. rewrite !sumN_cons, app_nil_r. cbn [sumN fold_right].
+      destruct e; [destruct exc|..]; cbn [leave_how]; unfold jump_st; norm; rewrite ?cadd_zero_r, ?app_nil_r; fin.
+Qed.
+
+(* ---- one statement of a phase *)
+Definition n_checkfails (x : stmt) : N :=
+  match x with
+  | SFailX _ _ | SFailC _ _ => 1%N
+  | SCheckK k a _ _ => if passes k a then 0%N else 1%N
+  | STry blk h hd => (sumN b_nfail (b_executed blk) + (if handler_entered blk h then sumN b_nfail (b_executed hd) else 0))%N
+  | SThrows ex blk _ _ =>
+      (sumN b_nfail (b_executed blk) + (match bases_how blk with HowJump => 0 | HowThrow e => if catches_type ex e then 0 else 1 | HowDone => 1 end))%N
+  | _ => 0%N
+  end.
+Definition stmt_inner (i ph k : N) (x : stmt) : list item :=
+  match x with
+  | SFailX f l | SFailC f l => [IFail (mkF i f l 0)]
+  | SCheckK kd a f l => if passes kd a then [] else [IFail (mkF i f l 0)]
+  | STry blk h hd => bases_items i ph k 0 blk ++ (if handler_entered blk h then bases_items i ph k (N.of_nat (length blk)) hd else [])
+  | SThrows ex blk f l =>
+      bases_items i ph k 0 blk
+      ++ (match bases_how blk with HowJump => [] | HowThrow e => if catches_type ex e then [] else [IFail (mkF i f l 0)] | HowDone => [IFail (mkF i f l 0)] end)
+  | _ => []
+  end.
+Definition stmt_items (i ph : N) (d : Z) (kx : N * stmt) : list item := IEv (mkEv i ph (fst kx) d) :: stmt_inner i ph (fst kx) (snd kx).
+Definition stmt_cnt (x : stmt) : cnt := mkCnt 0 0 (n_checks x) (n_checkfails x) 0 0.
+(* a statement that can be written in a build without exceptions too *)
+Definition plain (x : stmt) : bool := match x with STry _ _ _ | SThrows _ _ _ _ => false | _ => true end.
+
+Lemma is_pass_how x : is_pass x = how_done (stmt_how x).
+Proof. destruct x; cbn; try reflexivity. destruct (passes k agree); [reflexivity|]. destruct (c_style k); reflexivity. Qed.
+
+Lemma exec_stmt_closed exc i ph k x s :
+  exc = true \/ plain x = true ->
+  exec_stmt exc i ph k x s =
+  leave_how exc (stmt_how x) (upd s (depth s) (overflow s) (cur s) (stmt_cnt x) (stmt_items i ph (depth s) (k, x))).
+Proof.
+  intro H. unfold exec_stmt, stmt_items, stmt_cnt. cbn [fst snd].
+  destruct x as [| | f l | f l | | | kd a f l | blk h hd | ex blk f l];
+    cbn [stmt_how n_checks n_checkfails stmt_inner leave_how]; rewrite ?long_jmp_st; norm.
+  - fin.
+  - fin.
+  - destruct exc; unfold jump_st; norm; cbn [app]; rewrite ?cadd_zero_r; fin.
+  - unfold jump_st; norm; cbn [app]; rewrite ?cadd_zero_r; fin.
+  - fin.
+  - fin.
+  - assert (P : passes kd a = negb (called kd a) || fn_passes kd a) by reflexivity.
+    assert (Cn : counted kd a = if called kd a then 1%N else 0%N) by reflexivity.
+    rewrite P, Cn. destruct (called kd a), (fn_passes kd a); cbn [negb orb map leave_how]; rewrite ?long_jmp_st; norm; try fin.
+    destruct (c_style kd); [|destruct exc]; cbn [leave_how]; unfold jump_st; norm; cbn [app]; rewrite ?cadd_zero_r; fin.
+  - destruct H as [-> | H]; [|discriminate H].
+    rewrite exec_bases_closed. norm. unfold try_how, handler_entered, bases_cnt.
+    destruct (bases_how blk) as [| |[]]; cbn [leave_how]; unfold jump_st; norm; rewrite ?cadd_zero_r, ?cadd_zero_l, ?app_nil_r; cbn [app]; try fin;
+      destruct h as [[]|]; cbn [catches catches_type]; rewrite ?exec_bases_closed; norm; rewrite ?cadd_zero_r, ?cadd_zero_l, ?app_nil_r; cbn [app]; try fin;
+      destruct (bases_how hd) as [| |[]]; cbn [leave_how]; unfold jump_st; norm; rewrite ?cadd_zero_r, ?cadd_zero_l, ?app_nil_r; cbn [app]; fin.
+  - destruct H as [-> | H]; [|discriminate H].
+    rewrite exec_bases_closed. norm. unfold throws_how, fail_here, bases_cnt.
+    destruct (bases_how blk) as [| |[]]; cbn [leave_how]; unfold jump_st; norm; rewrite ?cadd_zero_r, ?cadd_zero_l, ?app_nil_r; cbn [app]; try fin;
+      destruct ex; cbn [catches_type leave_how]; norm; rewrite ?cadd_zero_r, ?cadd_zero_l, ?app_nil_r; cbn [app]; fin.
+Qed.
+
+Definition phase_items (i ph : N) (d : Z) (k : N) (l : list stmt) : list item := flat_map (stmt_items i ph d) (number k (executed l)).
+Definition phase_cnt (l : list stmt) : cnt := mkCnt 0 0 (sumN n_checks (executed l)) (sumN n_checkfails (executed l)) 0 0.
+(* how a phase leaves: decided by the first statement that does not pass *)
+Definition leave (exc : bool) (e : option stmt) (s : st) : st * outcome :=
+  match e with None => (s, ONormal) | Some x => leave_how exc (stmt_how x) s end.
+
+Lemma plain_cons exc x r : exc = true \/ forallb plain (x :: r) = true -> (exc = true \/ plain x = true) /\ (exc = true \/ forallb plain r = true).
+Proof. intros [H|H]; [tauto|]. cbn in H. apply andb_true_iff in H. tauto. Qed.
 
 Lemma exec_stmts_closed exc i ph : forall l k s,
+  exc = true \/ forallb plain l = true ->
   exec_stmts exc i ph k l s =
   leave exc (ending l) (upd s (depth s) (overflow s) (cur s) (phase_cnt l) (phase_items i ph (depth s) k l)).
 Proof.
-  induction l as [|x r IH]; intros k s.
-  - cbn. unfold phase_cnt, phase_items; cbn. change (mkCnt 0 0 (nb counts_check []) (nb is_checkfail []) 0 0) with czero.
-    rewrite upd_id. reflexivity.
-  - cbn [exec_stmts]. unfold exec_stmt.
-    destruct x as [| | f l | f l | | | kd a f l].
-    7: { assert (P : passes kd a = negb (called kd a) || fn_passes kd a) by reflexivity.
-         assert (Cn : counted kd a = if called kd a then 1%N else 0%N) by reflexivity.
-         destruct (called kd a), (fn_passes kd a); cbn [negb orb] in P; cbn [ending executed is_pass]; rewrite ?P;
-           try rewrite IH; unfold long_jmp; norm;
-           unfold phase_cnt, phase_items; cbn [executed is_pass number flat_map stmt_items fst snd app leave]; rewrite ?P;
-           cbn [executed number flat_map stmt_items fst snd app leave]; rewrite ?P;
-           rewrite ?nb_cons; cbn [counts_check is_checkfail negb]; rewrite ?P, ?Cn; cbn [negb N.ltb N.compare];
-           try (destruct (c_style kd); cbn [orb negb]; try destruct exc; cbn [negb]); norm; rewrite ?cadd_zero_l; try reflexivity.
-         }
-    all: cbn [is_pass ending executed]; try rewrite IH; unfold long_jmp; norm;
-      unfold phase_cnt, phase_items; cbn [executed is_pass number flat_map stmt_items fst snd app leave];
-      rewrite ?nb_cons; cbn [counts_check is_checkfail].
-    + rewrite cadd_zero_l. reflexivity.
-    + rewrite cadd_zero_l. reflexivity.
-    + destruct exc; norm; reflexivity.
-    + norm; reflexivity.
-    + reflexivity.
-    + reflexivity.
+  induction l as [|x r IH]; intros k s HP.
+  - cbn. unfold phase_cnt, phase_items; cbn. change (mkCnt 0 0 0 0 0 0) with czero. rewrite upd_id. reflexivity.
+  - apply plain_cons in HP. destruct HP as [HX HR].
+    cbn [exec_stmts]. rewrite (exec_stmt_closed exc i ph k x s HX). unfold phase_cnt, phase_items, stmt_cnt in *. cbn [ending executed].
+    rewrite (is_pass_how x). destruct (stmt_how x) as [| |e] eqn:H; cbn [how_done leave_how leave]; rewrite ?H.
+    + rewrite (IH _ _ HR). norm. cbn [number flat_map]. rewrite !sumN_cons.
+      destruct (ending r) as [y|]; [destruct (stmt_how y) as [| |[]]; try destruct exc|];
+        cbn [leave leave_how]; unfold jump_st; norm; rewrite ?cadd_zero_r, ?app_nil_r; fin.
+    + cbn [number flat_map leave_how]. rewrite !sumN_cons, app_nil_r. unfold jump_st. norm. rewrite ?cadd_zero_r, ?app_nil_r. cbn [sumN fold_right]. fin.
+    + cbn [number flat_map]. rewrite !sumN_cons, app_nil_r. cbn [sumN fold_right].
+      destruct e; [destruct exc|..]; cbn [leave_how]; unfold jump_st; norm; rewrite ?cadd_zero_r, ?app_nil_r; fin.
 Qed.
 
 Lemma ending_not_pass l x : ending l = Some x -> is_pass x = false.
@@ -118,30 +214,31 @@ Qed.
 (* ------------------------------------------------------------------ PlatformSpecificSetJmp around one phase *)
 Definition in_phase (i ph : N) (l : list stmt) (s : st) (d : Z) : st :=
   upd s d (overflow s || negb (slot_ok (depth s))) (cur s) (phase_cnt l) (phase_items i ph (depth s + 1) 0 l).
+(* the statement leaves by a longjmp to the setjmp of its phase *)
+Definition jumps (exc : bool) (w : how) : bool := match w with HowJump => true | HowThrow XFailed => negb exc | _ => false end.
+Definition how_exn (w : how) : exn := match w with HowThrow e => e | _ => XFailed end.
 
 Lemma setjmp_phase exc i ph l s :
+  exc = true \/ forallb plain l = true ->
   setjmp_call (exec_stmts exc i ph 0 l) s =
   match ending l with
   | None => (in_phase i ph l s (depth s), true, ONormal)
-  | Some (SFailX _ _) => if exc then (in_phase i ph l s (depth s + 1), false, OThrow XFailed) else (in_phase i ph l s (depth s), false, ONormal)
-  | Some (SFailC _ _) => (in_phase i ph l s (depth s), false, ONormal)
-  | Some (SCheckK k a _ _) =>
-      if passes k a then (in_phase i ph l s (depth s), true, ONormal)
-      else if c_style k || negb exc then (in_phase i ph l s (depth s), false, ONormal)
-      else (in_phase i ph l s (depth s + 1), false, OThrow XFailed)
-  | Some SThrowStd => (in_phase i ph l s (depth s + 1), false, OThrow XStd)
-  | Some SThrowOther => (in_phase i ph l s (depth s + 1), false, OThrow XOther)
-  | Some _ => (in_phase i ph l s (depth s), true, ONormal)
+  | Some x =>
+      match stmt_how x with
+      | HowDone => (in_phase i ph l s (depth s), true, ONormal)
+      | w => if jumps exc w then (in_phase i ph l s (depth s), false, ONormal)
+             else (in_phase i ph l s (depth s + 1), false, OThrow (how_exn w))
+      end
   end.
 Proof.
-  unfold setjmp_call, in_phase. rewrite exec_stmts_closed. norm.
+  intro HP. unfold setjmp_call, in_phase. rewrite (exec_stmts_closed exc i ph l 0 _ HP). norm.
   rewrite !cadd_zero_l. cbn [app].
-  destruct (ending l) as [x|]; [destruct x|]; cbn [leave]; try destruct exc; dk; norm;
-    rewrite ?Z.add_simpl_r, ?Z.eqb_refl, ?cadd_zero_r, ?app_nil_r; reflexivity.
+  destruct (ending l) as [x|]; cbn [leave]; [destruct (stmt_how x) as [| |[]]|]; cbn [leave leave_how jumps how_exn negb]; try destruct exc; cbn [negb];
+    unfold jump_st; norm; rewrite ?Z.add_simpl_r, ?Z.eqb_refl, ?cadd_zero_r, ?app_nil_r; reflexivity.
 Qed.
 
 (* what one guarded phase (setjmp + the catch handlers, no rethrow) adds *)
-Definition thrown (l : list stmt) : bool := match ending l with Some SThrowStd | Some SThrowOther => true | _ => false end.
+Definition thrown (l : list stmt) : bool := match ending l with Some x => how_escapes (stmt_how x) | None => false end.
 Definition guard_items (i : N) (t : test) (ph : N) (d : Z) (l : list stmt) : list item :=
   phase_items i ph d 0 l ++ (if thrown l then [IFail (exc_failure i t)] else []).
 Definition guard_cnt (l : list stmt) : cnt := cadd (phase_cnt l) (if thrown l then one_fail else czero).
@@ -153,27 +250,35 @@ Proof.
   intro NT. induction l as [|y r IH]; cbn in *; [discriminate|]. apply orb_false_iff in NT. destruct NT as [A B].
   destruct (is_pass y); [exact (IH B)|]. intros x E; inversion E; subst; exact A.
 Qed.
+Lemma not_throw_how x : is_throw x = false -> plain x = true /\ how_escapes (stmt_how x) = false.
+Proof. destruct x; cbn; try discriminate; intros _; split; try reflexivity. destruct (passes k agree); [reflexivity|]. destruct (c_style k); reflexivity. Qed.
+Lemma no_throw_plain l : existsb is_throw l = false -> forallb plain l = true.
+Proof.
+  induction l as [|x r IH]; cbn; [reflexivity|]. intro H. apply orb_false_iff in H. destruct H as [A B].
+  rewrite (proj1 (not_throw_how x A)), (IH B). reflexivity.
+Qed.
+
 Lemma guard_exc r i t ph l s :
   r = false \/ existsb is_throw l = false ->
   handlers r i t (drop_ret (setjmp_call (exec_stmts true i ph 0 l) s)) = (guarded i t ph l s, ONormal).
 Proof.
-  intro H. rewrite setjmp_phase. unfold guarded, guard_items, guard_cnt, thrown, in_phase.
+  intro H. rewrite setjmp_phase by (left; reflexivity). unfold guarded, guard_items, guard_cnt, thrown, in_phase.
   destruct H as [-> | NT].
-  - destruct (ending l) as [x|]; [destruct x|]; dk; cbn [drop_ret handlers]; unfold restore_jump_buffer; norm;
-      rewrite ?Z.add_simpl_r, ?cadd_zero_r, ?app_nil_r; reflexivity.
+  - destruct (ending l) as [x|]; [destruct (stmt_how x) as [| |[]]|]; cbn [jumps negb how_exn how_escapes drop_ret handlers];
+      unfold restore_jump_buffer; norm; rewrite ?Z.add_simpl_r, ?cadd_zero_r, ?app_nil_r; reflexivity.
   - pose proof (no_throw_ending l NT) as H.
-    destruct (ending l) as [x|]; [destruct x|]; dk; cbn [drop_ret handlers];
-      try (specialize (H _ eq_refl); discriminate H); unfold restore_jump_buffer; norm;
-      rewrite ?Z.add_simpl_r, ?cadd_zero_r, ?app_nil_r; reflexivity.
+    destruct (ending l) as [x|]; [pose proof (proj2 (not_throw_how x (H _ eq_refl))) as NE; destruct (stmt_how x) as [| |[]]|];
+      cbn [jumps negb how_exn how_escapes drop_ret handlers] in *; try discriminate NE;
+      unfold restore_jump_buffer; norm; rewrite ?Z.add_simpl_r, ?cadd_zero_r, ?app_nil_r; reflexivity.
 Qed.
 Lemma guard_noexc i t ph l s :
   existsb is_throw l = false ->
   drop_ret (setjmp_call (exec_stmts false i ph 0 l) s) = (guarded i t ph l s, ONormal).
 Proof.
-  intro NT. rewrite setjmp_phase. unfold guarded, guard_items, guard_cnt, thrown, in_phase.
+  intro NT. rewrite setjmp_phase by (right; exact (no_throw_plain l NT)). unfold guarded, guard_items, guard_cnt, thrown, in_phase.
   pose proof (no_throw_ending l NT) as H.
-  destruct (ending l) as [x|]; [destruct x|]; dk; cbn [drop_ret];
-    try (specialize (H _ eq_refl); discriminate H);
+  destruct (ending l) as [x|]; [pose proof (proj2 (not_throw_how x (H _ eq_refl))) as NE; destruct (stmt_how x) as [| |[]]|];
+    cbn [jumps negb how_exn how_escapes drop_ret] in *; try discriminate NE;
     rewrite ?cadd_zero_r, ?app_nil_r; reflexivity.
 Qed.
 
@@ -198,11 +303,11 @@ Proof.
   assert (H1 : r = false \/ existsb is_throw (t_body t) = false) by (destruct H as [H|H]; [left; exact H | right; apply has_throw_parts in H; tauto]).
   assert (H2 : r = false \/ existsb is_throw (t_teardown t) = false) by (destruct H as [H|H]; [left; exact H | right; apply has_throw_parts in H; tauto]).
   unfold utest_run_exc, utest_final.
-  pose proof (guard_exc r i t 0 (t_setup t) s H0) as G. rewrite setjmp_phase in G. rewrite setjmp_phase.
+  pose proof (guard_exc r i t 0 (t_setup t) s H0) as G. rewrite setjmp_phase in G by (left; reflexivity). rewrite setjmp_phase by (left; reflexivity).
   rewrite completes_ending. pose proof (ending_not_pass (t_setup t)) as NP.
   destruct (ending (t_setup t)) as [x|] eqn:E.
-  - pose proof (NP _ eq_refl) as NP'. destruct x; try discriminate NP'; cbn [is_pass] in NP';
-      try (rewrite NP' in *; destruct (c_style _); cbn [orb negb] in * ); cbn [is_none drop_ret] in *; rewrite G; apply guard_exc; assumption.
+  - pose proof (NP _ eq_refl) as NP'. rewrite is_pass_how in NP'.
+    destruct (stmt_how x) as [| |[]]; try discriminate NP'; cbn [jumps negb is_none drop_ret] in *; rewrite G; apply guard_exc; assumption.
   - cbn [is_none]. rewrite (in_phase_guarded i t) by (unfold thrown; rewrite E; reflexivity).
     rewrite guard_exc by assumption. apply guard_exc; assumption.
 Qed.
@@ -211,16 +316,16 @@ Lemma utest_run_noexc_closed i t s : has_throw t = false -> utest_run_noexc i t 
 Proof.
   intro NT. apply has_throw_parts in NT. destruct NT as [N0 [N1 N2]].
   unfold utest_run_noexc, utest_final.
-  pose proof (guard_noexc i t 0 (t_setup t) s N0) as G. rewrite setjmp_phase in G. rewrite setjmp_phase.
+  pose proof (guard_noexc i t 0 (t_setup t) s N0) as G.
+  rewrite setjmp_phase in G by (right; exact (no_throw_plain _ N0)). rewrite setjmp_phase by (right; exact (no_throw_plain _ N0)).
   rewrite completes_ending. pose proof (ending_not_pass (t_setup t)) as NP.
   destruct (ending (t_setup t)) as [x|] eqn:E.
-  - pose proof (NP _ eq_refl) as NP'. destruct x; try discriminate NP'; cbn [is_pass] in NP';
-      try (rewrite NP' in *; destruct (c_style _); cbn [orb negb] in * ); cbn [is_none drop_ret] in *;
+  - pose proof (NP _ eq_refl) as NP'. rewrite is_pass_how in NP'.
+    destruct (stmt_how x) as [| |[]]; try discriminate NP'; cbn [jumps negb is_none drop_ret] in *;
       try discriminate G; pose proof (f_equal fst G) as G'; cbn [fst] in G'; rewrite G'; apply guard_noexc; assumption.
   - cbn [is_none]. rewrite (in_phase_guarded i t) by (unfold thrown; rewrite E; reflexivity).
     rewrite (guard_noexc i t 1) by assumption. apply guard_noexc; assumption.
 Qed.
-
 Definition utest_cnt (t : test) : cnt :=
   cadd (guard_cnt (t_setup t)) (cadd (if completes (t_setup t) then guard_cnt (t_body t) else czero) (guard_cnt (t_teardown t))).
 Definition utest_items (i : N) (t : test) (d : Z) : list item :=
@@ -328,54 +433,142 @@ Lemma fails_app a b : fails_of (a ++ b) = fails_of a ++ fails_of b.
 Proof. induction a as [|x a IH]; cbn; [reflexivity|]. destruct x; cbn; rewrite IH; reflexivity. Qed.
 Lemma afters_app a b : afters_of (a ++ b) = afters_of a ++ afters_of b.
 Proof. induction a as [|x a IH]; cbn; [reflexivity|]. destruct x; cbn; rewrite IH; reflexivity. Qed.
+Lemma subs_app a b : subs_of (a ++ b) = subs_of a ++ subs_of b.
+Proof. induction a as [|x a IH]; cbn; [reflexivity|]. destruct x; cbn; rewrite IH; reflexivity. Qed.
 
 Definition strip (e : event) : N * N * N := (e_test e, e_phase e, e_idx e).
 
-(* a check statement, knowing from P whether it passes *)
-Ltac kp P := try (cbn [is_pass] in P; unfold thrown, stmt_items; cbn [ending is_pass number fst snd stmt_failure is_checkfail flat_map app];
-                  rewrite ?P; cbn [negb]).
+(* failure records among the items *)
+Lemma recs_events l : events_of (map IFail l) = []. Proof. induction l; cbn; auto. Qed.
+Lemma recs_afters l : afters_of (map IFail l) = []. Proof. induction l; cbn; auto. Qed.
+Lemma recs_subs l : subs_of (map IFail l) = []. Proof. induction l; cbn; auto. Qed.
+Lemma recs_fails l : fails_of (map IFail l) = l. Proof. induction l as [|x l IH]; cbn; [reflexivity|]. rewrite IH. reflexivity. Qed.
+
+(* inside a try block *)
+Section Inner.
+  Variables (i ph k : N).
+  Lemma inner_events : forall m j, events_of (flat_map (base_items i ph k) (number j m)) = [].
+  Proof. induction m as [|b m IH]; intro j; [reflexivity|]. cbn [number flat_map base_items fst snd app events_of]. rewrite events_app, recs_events, IH. reflexivity. Qed.
+  Lemma inner_afters : forall m j, afters_of (flat_map (base_items i ph k) (number j m)) = [].
+  Proof. induction m as [|b m IH]; intro j; [reflexivity|]. cbn [number flat_map base_items fst snd app afters_of]. rewrite afters_app, recs_afters, IH. reflexivity. Qed.
+  Lemma inner_fails : forall m j, fails_of (flat_map (base_items i ph k) (number j m)) = flat_map (b_failure i) m.
+  Proof. induction m as [|b m IH]; intro j; [reflexivity|]. cbn [number flat_map base_items fst snd app fails_of]. rewrite fails_app, recs_fails, IH. reflexivity. Qed.
+  Lemma inner_subs : forall m j, subs_of (flat_map (base_items i ph k) (number j m)) = map (fun jb => mkSub i ph k (fst jb)) (number j m).
+  Proof. induction m as [|b m IH]; intro j; [reflexivity|]. cbn [number flat_map base_items fst snd app subs_of map]. rewrite subs_app, recs_subs, IH. reflexivity. Qed.
+  Lemma bases_events l j : events_of (bases_items i ph k j l) = []. Proof. apply inner_events. Qed.
+  Lemma bases_afters l j : afters_of (bases_items i ph k j l) = []. Proof. apply inner_afters. Qed.
+  Lemma bases_fails l j : fails_of (bases_items i ph k j l) = flat_map (b_failure i) (b_executed l). Proof. apply inner_fails. Qed.
+  Lemma bases_subs l j : subs_of (bases_items i ph k j l) = map (fun jb => mkSub i ph k (fst jb)) (number j (b_executed l)). Proof. apply inner_subs. Qed.
+End Inner.
+Lemma b_nfail_len i b : b_nfail b = N.of_nat (length (b_failure i b)).
+Proof. destruct b; cbn; try reflexivity. destruct (passes k agree); reflexivity. Qed.
+Lemma bases_nfail i m : sumN b_nfail m = N.of_nat (length (flat_map (b_failure i) m)).
+Proof. induction m as [|b m IH]; [reflexivity|]. rewrite sumN_cons. cbn [flat_map]. rewrite app_length, IH, (b_nfail_len i b). lia. Qed.
+
+(* one statement of a phase *)
+Lemma stmt_events i ph d k x : events_of (stmt_items i ph d (k, x)) = [mkEv i ph k d].
+Proof.
+  unfold stmt_items. cbn [fst snd events_of]. f_equal.
+  destruct x; cbn [stmt_inner]; try reflexivity.
+  - destruct (passes k0 agree); reflexivity.
+  - rewrite events_app, bases_events. destruct (handler_entered blk h); [apply bases_events | reflexivity].
+  - rewrite events_app, bases_events. destruct (bases_how blk) as [| |e0]; try reflexivity. destruct (catches_type e e0); reflexivity.
+Qed.
+Lemma stmt_afters i ph d k x : afters_of (stmt_items i ph d (k, x)) = [].
+Proof.
+  unfold stmt_items. cbn [fst snd afters_of].
+  destruct x; cbn [stmt_inner]; try reflexivity.
+  - destruct (passes k0 agree); reflexivity.
+  - rewrite afters_app, bases_afters. destruct (handler_entered blk h); [apply bases_afters | reflexivity].
+  - rewrite afters_app, bases_afters. destruct (bases_how blk) as [| |e0]; try reflexivity. destruct (catches_type e e0); reflexivity.
+Qed.
+Lemma stmt_subs_eq i ph d k x : subs_of (stmt_items i ph d (k, x)) = stmt_subs i ph k x.
+Proof.
+  unfold stmt_items. cbn [fst snd subs_of].
+  destruct x; cbn [stmt_inner stmt_subs]; try reflexivity.
+  - destruct (passes k0 agree); reflexivity.
+  - rewrite subs_app, bases_subs. destruct (handler_entered blk h); [rewrite bases_subs|]; reflexivity.
+  - rewrite subs_app, bases_subs. destruct (bases_how blk) as [| |e0]; cbn; rewrite ?app_nil_r; try reflexivity.
+    destruct (catches_type e e0); cbn; rewrite ?app_nil_r; reflexivity.
+Qed.
+Lemma stmt_fails i t ph d k x :
+  fails_of (stmt_items i ph d (k, x)) ++ (if how_escapes (stmt_how x) then [exc_failure i t] else []) = stmt_failure i t x.
+Proof.
+  unfold stmt_items, exc_failure. cbn [fst snd fails_of].
+  destruct x; cbn [stmt_inner stmt_how stmt_failure how_escapes fails_of app]; try reflexivity.
+  - destruct (passes k0 agree); [reflexivity|]. destruct (c_style k0); reflexivity.
+  - rewrite fails_app, bases_fails, <- app_assoc. f_equal. destruct (handler_entered blk h); [rewrite bases_fails|]; reflexivity.
+  - rewrite fails_app, bases_fails, <- app_assoc. f_equal. unfold throws_how.
+    destruct (bases_how blk) as [| |e0]; try reflexivity. destruct (catches_type e e0); reflexivity.
+Qed.
+Lemma stmt_nfail i t x :
+  (n_checkfails x + (if how_escapes (stmt_how x) then 1 else 0))%N = N.of_nat (length (stmt_failure i t x)).
+Proof.
+  destruct x; cbn [n_checkfails stmt_how stmt_failure how_escapes length]; try reflexivity.
+  - destruct (passes k agree); [reflexivity|]. destruct (c_style k); reflexivity.
+  - rewrite !app_length, (bases_nfail i (b_executed blk)).
+    destruct (handler_entered blk h); [rewrite (bases_nfail i (b_executed hd))|]; destruct (how_escapes (try_how blk h hd)); cbn [length]; lia.
+  - rewrite !app_length, (bases_nfail i (b_executed blk)). unfold throws_how.
+    destruct (bases_how blk) as [| |e0]; cbn [how_escapes length]; try lia. destruct (catches_type e e0); cbn [how_escapes length]; lia.
+Qed.
+Lemma pass_not_escapes x : is_pass x = true -> how_escapes (stmt_how x) = false.
+Proof. rewrite is_pass_how. destruct (stmt_how x); [reflexivity | discriminate | discriminate]. Qed.
+Lemma pass_fails i t ph d k x : is_pass x = true -> fails_of (stmt_items i ph d (k, x)) = stmt_failure i t x.
+Proof. intro P. rewrite <- (stmt_fails i t ph d k x), (pass_not_escapes x P), app_nil_r. reflexivity. Qed.
+
 Section Phase.
   Variables (i : N) (t : test) (ph : N) (d : Z).
   Let tail (l : list stmt) : list item := if thrown l then [IFail (exc_failure i t)] else [].
 
   Lemma thrown_cons_pass x r : is_pass x = true -> thrown (x :: r) = thrown r.
   Proof. intro H. unfold thrown. cbn. rewrite H. reflexivity. Qed.
+  Lemma thrown_cons_stop x r : is_pass x = false -> thrown (x :: r) = how_escapes (stmt_how x).
+  Proof. intro H. unfold thrown. cbn. rewrite H. reflexivity. Qed.
+  Lemma phase_items_pass x r k : is_pass x = true -> phase_items i ph d k (x :: r) = stmt_items i ph d (k, x) ++ phase_items i ph d (k + 1) r.
+  Proof. intro H. unfold phase_items. cbn [executed]. rewrite H. reflexivity. Qed.
+  Lemma phase_items_stop x r k : is_pass x = false -> phase_items i ph d k (x :: r) = stmt_items i ph d (k, x).
+  Proof. intro H. unfold phase_items. cbn [executed]. rewrite H. cbn [number flat_map]. apply app_nil_r. Qed.
 
   Lemma guard_events : forall l k,
     events_of (phase_items i ph d k l ++ tail l) = map (fun kx => mkEv i ph (fst kx) d) (number k (executed l)).
   Proof.
-    unfold tail. induction l as [|x r IH]; intro k; [reflexivity|].
-    unfold phase_items in *. destruct (is_pass x) eqn:P.
-    - rewrite (thrown_cons_pass x r P). cbn [executed]. rewrite P. cbn [number flat_map map fst]. rewrite <- app_assoc.
-      rewrite events_app, IH. destruct x; try discriminate P; kp P; reflexivity.
-    - cbn [executed]. rewrite P. destruct x; try discriminate P; kp P; reflexivity.
+    unfold tail. induction l as [|x r IH]; intro k; [reflexivity|]. destruct (is_pass x) eqn:P.
+    - rewrite (thrown_cons_pass x r P), (phase_items_pass x r k P), <- app_assoc, events_app, stmt_events, IH. cbn [executed]. rewrite P. reflexivity.
+    - rewrite (phase_items_stop x r k P), events_app, stmt_events. cbn [executed]. rewrite P.
+      destruct (thrown (x :: r)); reflexivity.
   Qed.
   Lemma guard_fails : forall l k,
     fails_of (phase_items i ph d k l ++ tail l) = flat_map (stmt_failure i t) (executed l).
   Proof.
-    unfold tail. induction l as [|x r IH]; intro k; [reflexivity|].
-    unfold phase_items in *. destruct (is_pass x) eqn:P.
-    - rewrite (thrown_cons_pass x r P). cbn [executed]. rewrite P. cbn [number flat_map]. rewrite <- app_assoc.
-      rewrite fails_app, IH. destruct x; try discriminate P; kp P; reflexivity.
-    - cbn [executed]. rewrite P. destruct x; try discriminate P; kp P; reflexivity.
+    unfold tail. induction l as [|x r IH]; intro k; [reflexivity|]. destruct (is_pass x) eqn:P.
+    - rewrite (thrown_cons_pass x r P), (phase_items_pass x r k P), <- app_assoc, fails_app, (pass_fails i t ph d k x P), IH. cbn [executed]. rewrite P. reflexivity.
+    - rewrite (phase_items_stop x r k P), (thrown_cons_stop x r P), fails_app. cbn [executed]. rewrite P. cbn [flat_map]. rewrite app_nil_r.
+      rewrite <- (stmt_fails i t ph d k x). f_equal. destruct (how_escapes (stmt_how x)); reflexivity.
   Qed.
   Lemma guard_afters : forall l k, afters_of (phase_items i ph d k l ++ tail l) = [].
   Proof.
-    unfold tail. induction l as [|x r IH]; intro k; [reflexivity|].
-    unfold phase_items in *. destruct (is_pass x) eqn:P.
-    - rewrite (thrown_cons_pass x r P). cbn [executed]. rewrite P. cbn [number flat_map]. rewrite <- app_assoc.
-      rewrite afters_app, IH. destruct x; try discriminate P; kp P; reflexivity.
-    - cbn [executed]. rewrite P. destruct x; try discriminate P; kp P; reflexivity.
+    unfold tail. induction l as [|x r IH]; intro k; [reflexivity|]. destruct (is_pass x) eqn:P.
+    - rewrite (thrown_cons_pass x r P), (phase_items_pass x r k P), <- app_assoc, afters_app, stmt_afters, IH. reflexivity.
+    - rewrite (phase_items_stop x r k P), afters_app, stmt_afters. destruct (thrown (x :: r)); reflexivity.
+  Qed.
+  Lemma guard_subs : forall l k,
+    subs_of (phase_items i ph d k l ++ tail l) = flat_map (fun kx => stmt_subs i ph (fst kx) (snd kx)) (number k (executed l)).
+  Proof.
+    unfold tail. induction l as [|x r IH]; intro k; [reflexivity|]. destruct (is_pass x) eqn:P.
+    - rewrite (thrown_cons_pass x r P), (phase_items_pass x r k P), <- app_assoc, subs_app, stmt_subs_eq, IH. cbn [executed]. rewrite P. reflexivity.
+    - rewrite (phase_items_stop x r k P), subs_app, stmt_subs_eq. cbn [executed]. rewrite P. cbn [number flat_map fst snd]. rewrite app_nil_r.
+      destruct (thrown (x :: r)); cbn; rewrite app_nil_r; reflexivity.
   Qed.
   Lemma guard_cnt_eq l :
-    guard_cnt l = mkCnt 0 0 (nb counts_check (executed l)) (N.of_nat (length (flat_map (stmt_failure i t) (executed l)))) 0 0.
+    guard_cnt l = mkCnt 0 0 (sumN n_checks (executed l)) (N.of_nat (length (flat_map (stmt_failure i t) (executed l)))) 0 0.
   Proof.
     unfold guard_cnt, phase_cnt.
-    assert (H : (nb is_checkfail (executed l) + (if thrown l then 1 else 0))%N = N.of_nat (length (flat_map (stmt_failure i t) (executed l)))).
+    assert (H : (sumN n_checkfails (executed l) + (if thrown l then 1 else 0))%N = N.of_nat (length (flat_map (stmt_failure i t) (executed l)))).
     { induction l as [|x r IH]; [reflexivity|]. destruct (is_pass x) eqn:P.
-      - rewrite (thrown_cons_pass x r P). cbn [executed]. rewrite P. rewrite nb_cons. cbn [flat_map]. rewrite app_length.
-        destruct x; try discriminate P; try (cbn [is_pass] in P); cbn [is_checkfail stmt_failure]; rewrite ?P; cbn [negb length]; lia.
-      - cbn [executed]. rewrite P. destruct x; try discriminate P; kp P; rewrite ?nb_cons; cbn [is_checkfail]; rewrite ?P; reflexivity. }
+      - rewrite (thrown_cons_pass x r P). cbn [executed]. rewrite P. rewrite sumN_cons. cbn [flat_map]. rewrite app_length.
+        pose proof (stmt_nfail i t x) as E. rewrite (pass_not_escapes x P) in E. lia.
+      - rewrite (thrown_cons_stop x r P). cbn [executed]. rewrite P. rewrite sumN_cons. cbn [flat_map sumN fold_right]. rewrite app_nil_r.
+        pose proof (stmt_nfail i t x) as E. lia. }
     rewrite <- H. destruct (thrown l); cnt_eq.
   Qed.
   Lemma gi_events l : events_of (guard_items i t ph d l) = map (fun kx => mkEv i ph (fst kx) d) (number 0 (executed l)).
@@ -384,10 +577,12 @@ Section Phase.
   Proof. exact (guard_fails l 0%N). Qed.
   Lemma gi_afters l : afters_of (guard_items i t ph d l) = [].
   Proof. exact (guard_afters l 0%N). Qed.
+  Lemma gi_subs l : subs_of (guard_items i t ph d l) = flat_map (fun kx => stmt_subs i ph (fst kx) (snd kx)) (number 0 (executed l)).
+  Proof. exact (guard_subs l 0%N). Qed.
 End Phase.
-
 Lemma pl_events i l : events_of (pl_items i l) = []. Proof. induction l; cbn; auto. Qed.
 Lemma pl_afters i l : afters_of (pl_items i l) = []. Proof. induction l; cbn; auto. Qed.
+Lemma pl_subs i l : subs_of (pl_items i l) = []. Proof. induction l; cbn; auto. Qed.
 Lemma pl_fails i l : fails_of (pl_items i l) = map (fun l => mkF i 2 l 3) l. Proof. unfold pl_items. induction l as [|x l IH]; [reflexivity|]. cbn. rewrite IH. reflexivity. Qed.
 
 Lemma test_events i t d : events_of (test_items i t d) = map (fun e => mkEv (fst (fst e)) (snd (fst e)) (snd e) d) (want_events i t).
@@ -407,14 +602,18 @@ Proof.
   unfold test_items, utest_items.
   rewrite !afters_app, !pl_afters. destruct (completes (t_setup t)); rewrite !gi_afters; reflexivity.
 Qed.
+Lemma test_subs i t d : subs_of (test_items i t d) = want_subs i t.
+Proof.
+  unfold test_items, utest_items, want_subs, phases.
+  rewrite !subs_app, !pl_subs. destruct (completes (t_setup t)); cbn [app flat_map fst snd];
+    rewrite !gi_subs, ?app_nil_r; reflexivity.
+Qed.
 Lemma nb_app {A} (f : A -> bool) a b : nb f (a ++ b) = (nb f a + nb f b)%N.
 Proof. unfold nb. rewrite filter_app, app_length. lia. Qed.
 Lemma test_cnt_eq i t : test_cnt t = mkCnt 0 1 (want_checks t) (N.of_nat (length (want_fails i t))) 0 0.
 Proof.
   unfold test_cnt, utest_cnt, want_checks, want_fails, phases, pl_cnt. rewrite !(guard_cnt_eq i t).
-  fold (nb counts_check (flat_map (fun p : N * list stmt => executed (snd p))
-          ([(0%N, t_setup t)] ++ (if completes (t_setup t) then [(1%N, t_body t)] else []) ++ [(2%N, t_teardown t)]))).
-  destruct (completes (t_setup t)); cbn [app flat_map fst snd]; rewrite ?app_nil_r, !app_length, !map_length, ?nb_app; cnt_eq.
+  destruct (completes (t_setup t)); cbn [app flat_map fst snd]; rewrite ?app_nil_r, !app_length, !map_length, ?sumN_app; cnt_eq.
 Qed.
 
 (* ------------------------------------------------------------------ a whole repetition, in the vocabulary of the spec *)
@@ -447,6 +646,16 @@ Proof.
   induction l as [|t r IH]; intro i; [reflexivity|].
   cbn [tests_items]. rewrite number_cons. cbn [filter snd]. rewrite afters_app, IH. unfold step_items.
   destruct (selected cfg t); [|reflexivity]. rewrite afters_app. destruct (runs cfg t); rewrite ?test_afters; reflexivity.
+Qed.
+Lemma tests_subs cfg d c : forall l i, subs_of (tests_items cfg d c i l) = rep_subs cfg (number i l).
+Proof.
+  induction l as [|t r IH]; intro i; [reflexivity|].
+  cbn [tests_items]. rewrite number_cons. unfold rep_subs in *. cbn [filter]. unfold started at 1. cbn [fst snd].
+  rewrite subs_app, IH. unfold step_items. destruct (selected cfg t); cbn [andb].
+  - destruct (runs cfg t); cbn [flat_map fst snd].
+    + rewrite subs_app, test_subs. cbn [subs_of]. rewrite app_nil_r. reflexivity.
+    + reflexivity.
+  - reflexivity.
 Qed.
 Lemma tests_cnt_eq cfg : forall l i, tests_cnt cfg l = rep_counts cfg (number i l).
 Proof.
@@ -490,6 +699,7 @@ Proof. intros H l. induction l as [|x l IH]; cbn; [reflexivity|]. rewrite H, IH.
 Lemma ev3_eqb_refl x : ev3_eqb x x = true. Proof. destruct x as [[a b] c]. cbn. rewrite !N.eqb_refl. reflexivity. Qed.
 Lemma frec_eqb_refl x : frec_eqb x x = true. Proof. unfold frec_eqb. rewrite !N.eqb_refl. reflexivity. Qed.
 Lemma cnt_eqb_refl x : cnt_eqb x x = true. Proof. unfold cnt_eqb. rewrite !N.eqb_refl. reflexivity. Qed.
+Lemma sub_eqb_refl x : sub_eqb x x = true. Proof. unfold sub_eqb. rewrite !N.eqb_refl. reflexivity. Qed.
 Lemma forallb_repeat {A} (f : A -> bool) x n : f x = true -> forallb f (repeat x n) = true.
 Proof. intro H. induction n; cbn; [reflexivity|]. rewrite H, IHn. reflexivity. Qed.
 
@@ -507,8 +717,8 @@ Qed.
 Lemma rep_ok_model cfg tests :
   rep_ok cfg (number 0%N tests) (rep_obs_of cfg (rep_state cfg tests) ONormal) = true.
 Proof.
-  unfold rep_ok, rep_obs_of, rep_state. cbn [out cn r_events r_fails r_after r_summary r_counters is_normal].
-  rewrite tests_events, tests_fails, tests_afters.
+  unfold rep_ok, rep_obs_of, rep_state. cbn [out cn r_events r_fails r_after r_summary r_counters r_subs is_normal].
+  rewrite tests_events, tests_fails, tests_afters, tests_subs, (list_eqb_refl _ sub_eqb_refl), andb_true_r.
   rewrite map_map. cbn [e_test e_phase e_idx].
   replace (map (fun x : N * N * N => (fst (fst x), snd (fst x), snd x)) (rep_events cfg (number 0%N tests))) with (rep_events cfg (number 0%N tests))
     by (rewrite <- (map_id (rep_events cfg (number 0%N tests))) at 1; apply map_ext; intros [[a b] c]; reflexivity).
@@ -680,7 +890,7 @@ Qed.
 Theorem run_meets_spec exc scn : valid exc scn = true -> spec scn (run exc scn) = true.
 Proof.
   intro V. pose proof (throws_ok_of_valid exc scn V) as TO. destruct (valid_parts exc scn V) as [RT [Vf Vn]].
-  unfold spec. rewrite RT. rewrite (run_closed exc scn TO). unfold run_closed_form.
+  unfold spec. rewrite RT. destruct (existsb rintercepts (s_tests scn)); [reflexivity|]. rewrite (run_closed exc scn TO). unfold run_closed_form.
   destruct (c_cli (s_cfg scn)) eqn:CLI; cbn [o_escaped o_reps o_ret negb andb].
   - rewrite map_length, idx_from_length, N2Nat.id, N.eqb_refl. cbn [andb]. rewrite reps_ok_model. cbn [andb].
     rewrite every_rep_ok_idx. rewrite total_failures_sum in Vf. apply eff_repeat_small in Vn.
@@ -691,6 +901,22 @@ Proof.
     + apply Z.eqb_eq. apply EV. reflexivity.
     + apply Z.eqb_neq. intro H. apply EV in H. discriminate H.
   - cbn [length reps_ok is_none]. unfold rep_tests. rewrite rep_ok_model. reflexivity.
+Qed.
+
+(* the returned value of a run through the command-line runner (also for the programs [spec] does not judge) *)
+Lemma ret_of_run exc scn :
+  valid exc scn = true -> c_cli (s_cfg scn) = true ->
+  exists z, o_ret (run exc scn) = Some z /\ Bool.eqb (z =? 0) (every_rep_ok scn (eff_repeat (c_repeat (s_cfg scn)))) = true.
+Proof.
+  intros V CLI. pose proof (throws_ok_of_valid exc scn V) as TO. destruct (valid_parts exc scn V) as [RT [Vf Vn]].
+  rewrite (run_closed exc scn TO). unfold run_closed_form. rewrite CLI. cbn [o_ret]. eexists. split; [reflexivity|].
+  rewrite every_rep_ok_idx. rewrite total_failures_sum in Vf. apply eff_repeat_small in Vn.
+  set (L := idx_from 0%N (N.to_nat (eff_repeat (c_repeat (s_cfg scn))))) in *.
+  assert (HL : Z.of_nat (length L) < 2 ^ 31) by (unfold L; rewrite idx_from_length; lia).
+  pose proof (exit_value_zero_iff (cnt_at (s_cfg scn) (s_tests scn)) L Vf HL) as EV.
+  apply eqb_true_iff. destruct (forallb _ L).
+  + apply Z.eqb_eq. apply EV. reflexivity.
+  + apply Z.eqb_neq. intro H. apply EV in H. discriminate H.
 Qed.
 
 (* builds with and without exception support are indistinguishable on programs that cannot throw *)
@@ -778,30 +1004,69 @@ Proof.
   unfold completes. induction pre as [|x r IH]; intro C; [reflexivity|]. cbn in C. apply andb_true_iff in C. destruct C as [A B].
   cbn [app executed]. rewrite A, (IH B). reflexivity.
 Qed.
-Lemma pass_no_failure i t x : is_pass x = true -> stmt_failure i t x = [].
-Proof. destruct x; cbn; try discriminate; try reflexivity. intros ->. reflexivity. Qed.
-Lemma completes_no_failures i t pre : completes pre = true -> flat_map (stmt_failure i t) pre = [].
+(* inside a try block: a list that completes records nothing; one that ends in an exception of the program's own records nothing either *)
+Lemma b_pass_no_failure i b : b_pass b = true -> b_failure i b = [].
+Proof. destruct b; cbn; try discriminate; try reflexivity. intros ->. reflexivity. Qed.
+Lemma bases_how_cons_pass b r : b_pass b = true -> bases_how (b :: r) = bases_how r.
+Proof. intro H. unfold bases_how. cbn. rewrite H. reflexivity. Qed.
+Lemma bases_how_cons_stop b r : b_pass b = false -> bases_how (b :: r) = b_how b.
+Proof. intro H. unfold bases_how. cbn. rewrite H. reflexivity. Qed.
+Lemma bases_quiet i l : bases_how l <> HowJump -> bases_how l <> HowThrow XFailed -> flat_map (b_failure i) (b_executed l) = [].
 Proof.
-  unfold completes. induction pre as [|x r IH]; intro C; [reflexivity|]. cbn in C. apply andb_true_iff in C. destruct C as [A B].
-  cbn [flat_map]. rewrite (pass_no_failure i t x A), (IH B). reflexivity.
+  induction l as [|b r IH]; intros NJ NF; [reflexivity|]. cbn [b_executed]. destruct (b_pass b) eqn:P.
+  - rewrite (bases_how_cons_pass b r P) in NJ, NF. cbn [flat_map]. rewrite (b_pass_no_failure i b P), (IH NJ NF). reflexivity.
+  - rewrite (bases_how_cons_stop b r P) in NJ, NF. cbn [flat_map]. rewrite app_nil_r.
+    destruct b; cbn in *; try reflexivity; try congruence. destruct (passes k agree); [reflexivity|]. destruct (c_style k); congruence.
+Qed.
+(* the block of a try statement that cannot intercept does not end in a failing C++-style check ... *)
+Lemma b_ending_in l b : b_ending l = Some b -> In b l.
+Proof. induction l as [|y r IH]; cbn; [discriminate|]. destruct (b_pass y); [intro H; right; exact (IH H) | intro H; inversion H; left; reflexivity]. Qed.
+Lemma no_cxx_fail_how l : existsb b_cxx_fail l = false -> bases_how l <> HowThrow XFailed.
+Proof.
+  intros H E. unfold bases_how in E. destruct (b_ending l) as [b|] eqn:EB; [|discriminate E].
+  assert (X : existsb b_cxx_fail l = true) by (apply existsb_exists; exists b; split; [exact (b_ending_in l b EB) | unfold b_cxx_fail; rewrite E; reflexivity]).
+  congruence.
+Qed.
+(* a statement that passes has recorded nothing -- unless it is a handler that swallowed the exit of a failing check *)
+Lemma pass_no_failure i t x : intercepts x = false -> is_pass x = true -> stmt_failure i t x = [].
+Proof.
+  destruct x; cbn [intercepts is_pass stmt_failure]; try discriminate; try reflexivity.
+  - intros _ ->. reflexivity.
+  - intros NI P. unfold try_how, handler_entered in *.
+    destruct (bases_how blk) as [| |e] eqn:HB; cbn [how_done] in P; try discriminate P.
+    + rewrite (bases_quiet i blk) by (rewrite HB; discriminate). reflexivity.
+    + destruct (catches h e) eqn:C; [|discriminate P].
+      assert (NX : e <> XFailed).
+      { intros ->. destruct h as [[]|]; try discriminate C. cbn in NI. exact (no_cxx_fail_how blk NI HB). }
+      rewrite (bases_quiet i blk) by (rewrite HB; first [discriminate | intro Q; inversion Q; contradiction]).
+      destruct (bases_how hd) as [| |e'] eqn:HH; try discriminate P.
+      rewrite (bases_quiet i hd) by (rewrite HH; discriminate). reflexivity.
+  - intros _ P. unfold throws_how in *.
+    destruct (bases_how blk) as [| |e0] eqn:HB; cbn [how_done] in P; try discriminate P.
+    destruct (catches_type e e0) eqn:C; [|discriminate P].
+    rewrite (bases_quiet i blk) by (rewrite HB; first [discriminate | intro Q; inversion Q; subst; destruct e; discriminate C]). reflexivity.
+Qed.
+Lemma completes_no_failures i t pre : existsb intercepts pre = false -> completes pre = true -> flat_map (stmt_failure i t) pre = [].
+Proof.
+  unfold completes. induction pre as [|x r IH]; intros NI C; [reflexivity|]. cbn in C, NI. apply andb_true_iff in C. destruct C as [A B].
+  apply orb_false_iff in NI. destruct NI as [NA NB].
+  cbn [flat_map]. rewrite (pass_no_failure i t x NA A), (IH NB B). reflexivity.
 Qed.
 Theorem checkk_wants i t pre kd a f l post :
-  completes pre = true ->
+  completes pre = true -> existsb intercepts pre = false ->
   let x := SCheckK kd a f l in
   executed (pre ++ x :: post) = pre ++ x :: (if passes kd a then executed post else []) /\
-  nb counts_check (executed (pre ++ x :: post)) =
-    (nb counts_check pre + counted kd a + (if passes kd a then nb counts_check (executed post) else 0))%N /\
+  sumN n_checks (executed (pre ++ x :: post)) =
+    (sumN n_checks pre + counted kd a + (if passes kd a then sumN n_checks (executed post) else 0))%N /\
   flat_map (stmt_failure i t) (executed (pre ++ x :: post)) =
     (if passes kd a then flat_map (stmt_failure i t) (executed post) else [mkF i f l 0]).
 Proof.
-  intros C x.
+  intros C NI x.
   assert (E : executed (pre ++ x :: post) = pre ++ x :: (if passes kd a then executed post else [])).
   { rewrite (executed_app_pass pre _ C). unfold x. cbn [executed is_pass]. destruct (passes kd a); reflexivity. }
   rewrite E. split; [reflexivity|]. split.
-  - rewrite nb_app, nb_cons. unfold x. cbn [counts_check]. pose proof (counted_le_1 kd a) as LE.
-    assert (K : (if (0 <? counted kd a)%N then 1%N else 0%N) = counted kd a) by (destruct (N.ltb_spec 0 (counted kd a)); lia).
-    rewrite K. destruct (passes kd a); [lia|]. change (nb counts_check []) with 0%N. lia.
-  - rewrite flat_map_app, (completes_no_failures i t pre C). cbn [app flat_map]. unfold x. cbn [stmt_failure].
+  - rewrite sumN_app, sumN_cons. unfold x. cbn [n_checks]. destruct (passes kd a); [lia|]. change (sumN n_checks []) with 0%N. lia.
+  - rewrite flat_map_app, (completes_no_failures i t pre NI C). cbn [app flat_map]. unfold x. cbn [stmt_failure].
     destruct (passes kd a); [reflexivity|]. reflexivity.
 Qed.
 (* a test that consists of one check statement: what C01_failures_once / C01_summary_true then say about it *)
@@ -936,9 +1201,7 @@ Theorem exit_value_iff exc scn :
     (z = 0 <-> forall rp, In rp (o_reps (run exc scn)) -> exists m, r_summary rp = Some m /\ m_ok m = true).
 Proof.
   intros V CLI n. pose proof (reps_length exc scn V) as LEN. rewrite CLI in LEN. split; [exact LEN|]. split; [apply eff_repeat_pos|].
-  pose proof (run_meets_spec exc scn V) as S. unfold spec in S. destruct (valid_parts exc scn V) as [RT _].
-  rewrite RT, CLI in S. rewrite !andb_true_iff in S. destruct S as [_ S].
-  destruct (o_ret (run exc scn)) as [z|] eqn:RET; [|discriminate S]. exists z. split; [reflexivity|].
+  destruct (ret_of_run exc scn V CLI) as [z [RET S]]. exists z. split; [exact RET|].
   apply eqb_prop in S. fold n in S.
   assert (A : z = 0 <-> forall j, (j < n)%N -> rep_is_ok (rep_want scn j) = true).
   { rewrite <- Z.eqb_eq, S. unfold every_rep_ok. rewrite forallb_forall. unfold rep_index. split.
@@ -1014,10 +1277,10 @@ Proof. vm_compute. reflexivity. Qed.
 (* an observation that reports the assertBitsEqual failure at the line of the TEST, or that does not count the zero-length
    comparison, is rejected by the oracle *)
 Example ex_kinds_wrong_line_rejected :
-  spec ex_kinds (mkObs false (Some 2) (map (fun r => mkRep (r_events r) [mkF 0 0 10 0; mkF 0 0 17 0] (r_after r) (r_summary r) (r_counters r)) (o_reps (run true ex_kinds)))) = false.
+  spec ex_kinds (mkObs false (Some 2) (map (fun r => mkRep (r_events r) [mkF 0 0 10 0; mkF 0 0 17 0] (r_after r) (r_summary r) (r_counters r) (r_subs r)) (o_reps (run true ex_kinds)))) = false.
 Proof. vm_compute. reflexivity. Qed.
 Example ex_kinds_uncounted_rejected :
-  spec ex_kinds (mkObs false (Some 2) (map (fun r => mkRep (r_events r) (r_fails r) (r_after r) (Some (mkSum false (Some 2%N) 1 1 4 0 0)) (r_counters r)) (o_reps (run true ex_kinds)))) = false.
+  spec ex_kinds (mkObs false (Some 2) (map (fun r => mkRep (r_events r) (r_fails r) (r_after r) (Some (mkSum false (Some 2%N) 1 1 4 0 0)) (r_counters r) (r_subs r)) (o_reps (run true ex_kinds)))) = false.
 Proof. vm_compute. reflexivity. Qed.
 Example ex_checkk_step : completes [SCheck; SCheckK MCompare true 0 13] = true. Proof. reflexivity. Qed.
 
@@ -1028,7 +1291,7 @@ Example ex_checkk_step : completes [SCheck; SCheckK MCompare true 0 13] = true. 
 Definition ex_macro : scenario := mkScn (mkCfg false false false false 1) [mkRTest false true 100 [] [RS (SCheckK MCompare false 0 110)] [] [] []].
 Definition relocate_old (site : N * N) (o : obs) : obs :=
   mkObs (o_escaped o) (o_ret o)
-        (map (fun r => mkRep (r_events r) (map (fun f => mkF (f_test f) (fst site) (snd site) (f_kind f)) (r_fails r)) (r_after r) (r_summary r) (r_counters r))
+        (map (fun r => mkRep (r_events r) (map (fun f => mkF (f_test f) (fst site) (snd site) (f_kind f)) (r_fails r)) (r_after r) (r_summary r) (r_counters r) (r_subs r))
              (o_reps o)).
 Definition compare_macro_old_stmt : Prop := forall site, spec ex_macro (relocate_old site (run true ex_macro)) = true.
 Theorem compare_macro_old_refuted : ~ compare_macro_old_stmt.
